@@ -211,6 +211,12 @@ def run(res, tier, lean, prop="C01", proof_breaks=(), build_log=""):
         # a nested burst during which the directory about to be watched vanishes just before the k-th follow-up
         # inotify_add_watch - every k of the burst's watch calls (quick: the first four); whatever survives must be covered
         plan += [("fault", k) for k in ((1, 2, 3, 4, 5, 6) if thorough else (1, 2, 3, 4))]
+    if prop in ("C07", "C02"):
+        # the directory vanishes just before its add-watch and is back, with a file inside, before the walk reaches it
+        plan += [("faultback", k) for k in ((1, 2, 3, 4, 5) if thorough else (2, 3, 5))]
+    if prop == "C07":
+        # the same with the vanished directory's name taken by a regular file at once (ENOTDIR instead of ENOENT)
+        plan += [("faultfile", k) for k in ((2, 3, 4, 5, 6) if thorough else (2, 4, 6))]
     if prop == "C07":
         # a directory tree leaves the watched tree; while the library drops its watches the k-th inotify_rm_watch finds the
         # watch already gone (EINVAL): the emitter must survive and keep reporting
@@ -236,7 +242,7 @@ def run(res, tier, lean, prop="C01", proof_breaks=(), build_log=""):
         if what is not None and what[0] == "rmfault":
             init_b = [("mkdir", "W/d"), ("mkdir", "W/d/dd"), ("mkdir", "W/d/dd/d"), ("mkdir", "W/a")]
             bursts = [[("rename", "W/d", "O/x")], [("create", "W/a/b")], [("create", "O/x/dd/a")]]
-        elif what is not None:
+        elif what is not None and what[0] in ("fault", "faultfile", "faultback"):
             init_b = [("mkdir", "W/d")]
             bursts = [[("mkdir", "W/n"), ("mkdir", "W/n/a"), ("mkdir", "W/n/b"), ("mkdir", "W/n/d"), ("mkdir", "W/n/dd"),
                        ("create", "W/n/dd/b"), ("mkdir", "W/n/dd/d"), ("create", "W/n/f")],
@@ -246,10 +252,13 @@ def run(res, tier, lean, prop="C01", proof_breaks=(), build_log=""):
         small = r.random() < 0.4
         vanish = None
         rmf = None
+        vfile = vback = False
         if what is not None and what[0] == "rmfault":
             rmf = what[1]
         elif what is not None:
             vanish = what[1]
+            vfile = what[0] == "faultfile"
+            vback = what[0] == "faultback"
         elif prop == "C07" and i % 2 == 1 and not paced:
             vanish = r.randint(1, 6)        # a directory vanishes just before the k-th follow-up inotify_add_watch
         # most burst runs also hold the reader's os.read() back, so that ONE read returns the whole burst
@@ -257,7 +266,7 @@ def run(res, tier, lean, prop="C01", proof_breaks=(), build_log=""):
             small = False
         gate = (fixedb or r.random() < 0.7) and not small
         out = pipe.run_bursts(init_b, bursts, recursive=recursive, full=full, small_reads=small, vanish_at=vanish, rm_fault_at=rmf,
-                              gate_reads=gate)
+                              gate_reads=gate, vanish_file=vfile, vanish_back=vback)
         if gate:
             res.bump("burst_histories_read_in_one_read")
         if rmf is not None and out["rm_faults"]:
